@@ -95,6 +95,7 @@ def run(ctx):
             scns.append(maptrace.gen_scenario(rng, max_levels=3, max_leaves=5, ncell=nc,
                                               cfg={'chunk': ch, 'P': rng.randint(2, 3)}))
         results += campaign(ctx, scns, 'MapRun_Trace_c2s')
+        accepted_but_refused(ctx, rng)
     nviol, blocked = report_for(ctx, results, PID)
     failed = sum(1 for r in results if not r['ok'])
     for r in results:
@@ -114,3 +115,56 @@ def replay(ctx, path):
     report_for(ctx, results, ctx.pid)
     ctx.count(case['scn'])
     ctx.sample({'verdict': results[0]['verdict'], 'clauses': [c[:3] for c in results[0]['clauses']]})
+
+
+def accepted_but_refused(ctx, rng):
+    """two kinds of taxonomy that the tree validator accepts and that cannot be mapped (known findings F25, F26): a
+    non-leaf node without children, a level called 'cell_id'"""
+    import copy
+    import warnings
+    from harness import build, maptrace
+    from cell_type_mapper.taxonomy.taxonomy_tree import TaxonomyTree
+    from harness import taxo
+    scn = None
+    for _ in range(200):
+        scn = maptrace.gen_scenario(rng, max_levels=3, max_leaves=5, min_leaves=3, G=6, ncell=4,
+                                    cfg={'drop': None, 'flatten': False, 'enc': 'dense'})
+        if len(scn['tree']['hier']) >= 2 and len(scn['tree']['nodes'][0]) > 1 and scn['tree']['hier'][0] == 1:
+            break
+    wd = str(ctx.tmpdir('c01_special_'))
+    # (i) an extra top-level node without children
+    s1 = copy.deepcopy(scn)
+    t = s1['tree']
+    new = max(t['nodes'][0]) + 1
+    t['nodes'][0].append(new)
+    t['kids'][0].append([new, []])
+    with warnings.catch_warnings():
+        warnings.simplefilter('ignore')
+        try:
+            TaxonomyTree(data=taxo.dict_from_tree(t, taxo.Naming('structural')))
+            acc = True
+        except Exception:                                   # noqa
+            acc = False
+        r = build.run_scenario(s1, wd) if acc else None
+    ctx.count({'special': 'childless_internal_node', 'scn': s1}, nontrivial=True)
+    if acc and not r['ok']:
+        sig = 'map:childless-internal-node' if 'marker cache is missing' in (r['error'] or '') else 'map:childless-internal-node:other'
+        ctx.report(sig, f'a taxonomy the validator accepts (a top-level node without children) is not mapped: {r["error"]}',
+                   {'scn': s1, 'scheme': 'structural'})
+    # (ii) a level called 'cell_id'
+    with warnings.catch_warnings():
+        warnings.simplefilter('ignore')
+        try:
+            TaxonomyTree(data=taxo.dict_from_tree(scn['tree'], taxo.Naming('cellid')))
+            acc = True
+        except Exception:                                   # noqa
+            acc = False
+        r = build.run_scenario(scn, wd, scheme='cellid') if acc else None
+    ctx.count({'special': 'level_named_cell_id', 'scn': scn}, nontrivial=True)
+    if acc and not r['ok']:
+        txt = (r['error'] or '') + (r.get('traceback') or '') + (r.get('stdout') or '')
+        sig = 'map:level-named-cell_id' if "does not support item assignment" in txt or 'exited with code' in txt else 'map:level-named-cell_id:other'
+        ctx.report(sig, f'a taxonomy the validator accepts (a level called cell_id) is not mapped: {r["error"]}',
+                   {'scn': scn, 'scheme': 'cellid'})
+    ctx.part('special', accepted_but_refused_cases=2)
+
